@@ -84,11 +84,17 @@ UNITS["C17"] = [
                       "header extraction (axum TypedHeader<Authorization<Bearer>>) and next.run are outside the fragment"]),
     dict(kind="structural", name="c17_routes", check="authz_layer", file="crates/klukai-agent/src/agent/util.rs", fn="setup_http_api_handler",
          trusted=["axum contract: Router::layer wraps every route added before it (and none added after)"]),
+    dict(kind="structural", name="c17_readpool", check="read_pool", file="crates/klukai-types/src/agent.rs", fn="create", impl="^impl SplitPool$",
+         trusted=["sqlite_pool::Config::read_only opens connections with SQLITE_OPEN_READ_ONLY"]),
     dict(kind="structural", name="c17_readonly", check="readonly_guard", file="crates/klukai-agent/src/api/public/mod.rs", fn="build_query_rows_response",
          trusted=["rusqlite Statement::readonly == sqlite3_stmt_readonly; SQLITE_OPEN_READ_ONLY pool connections"]),
 ]
 
 UNITS["C16"] = [
+    dict(kind="kani", name="c16_members", crate="kani/c18_members",
+         harnesses=[dict(name="add_member_contract", bound="<=2 existing members, ids/addrs over 4 values, ts/cluster full u64/u16; inductive step from an arbitrary state")],
+         trusted=["same stand-ins as unit c18_members"],
+         assumptions=["the member table's cluster id is what the sync-candidate and broadcast-target filters read: a newer identity's cluster must replace the old one"]),
     dict(kind="verus", name="c16_cluster", template="specs/c16_cluster.vrs",
          under_contract=["frag_uni_dispatch", "frag_serve_sync_prologue", "frag_sync_candidate", "frag_broadcast_target"], vacuity=["frag_uni_dispatch", "frag_serve_sync_prologue", "frag_sync_candidate", "frag_broadcast_target"],
          assumptions=["fragments wrapped as functions (continue -> return Exit::Continue; return Ok(0) -> Returned(0)); `.instrument(..).await` dropped from the one awaited call, whose effect is a ghost log of written messages",
